@@ -8,7 +8,7 @@ on disk plus the open buffers (changed document analysed last), asked through th
 codes the configuration disables.  (Replaying the same history in the library instead would share any stale
 cache with the server and hide it.)  Some steps send two versions back to back without waiting.
 """
-import itertools, json, os, shutil
+import itertools, json, os, random, shutil, time
 
 from ..common import Inconclusive, write_tree
 from ..lsp import LSP, path_to_uri
@@ -112,6 +112,11 @@ def doc_versions(rng, n, directed=False):
         hname[0] = "fh"
         steps.append(("helpers", helpers_text("fh"), "helpers_rename_to_fh"))
         steps.append(("doc", render(), "resend_after_helpers_edit"))
+        steps.append(("doc", None, "close"))
+        parts["cycle"] = not parts["cycle"]
+        parts["mismatch"] = not parts["mismatch"]
+        parts["self"] = not parts["self"]
+        steps.append(("doc", render(), "reopen_changed"))
     for _ in range(n):
         r = rng.random()
         if r < 0.55:
@@ -130,6 +135,12 @@ def doc_versions(rng, n, directed=False):
             steps.append(("doc", render(), "resend_after_helpers_edit"))
         elif r < 0.84:
             burst()
+        elif r < 0.87:
+            # the tab is closed and the document opened again with other fixtures in it
+            steps.append(("doc", None, "close"))
+            for k in rng.sample(["cycle", "self", "mismatch", "mismatch2", "und"], 2):
+                parts[k] = not parts[k]
+            steps.append(("doc", render(), "reopen_changed"))
         elif r < 0.88:
             pkg_has_fd = not pkg_has_fd
             steps.append(("pkg_conf", PKG_CONF if pkg_has_fd else HDR, "pkg_conf_" + ("add_fd" if pkg_has_fd else "remove_fd")))
@@ -190,10 +201,36 @@ def run(ctx):
             write_tree(root, files)
             paths = {"doc": os.path.join(root, "pkg/test_doc.py"), "pkg_conf": os.path.join(root, "pkg/conftest.py"),
                      "root_conf": os.path.join(root, "conftest.py"), "helpers": os.path.join(root, "pkg/helpers_mod.py")}
-            srv = LSP(srv_bin(), root, locklog=os.path.join(ctx.scratch_root, "lock_srv.log"))
+            hold = si % 3 == 1
+            gate = ctx.scratch(f"gate{si}") if hold else None
+            srv = LSP(srv_bin(), root, locklog=os.path.join(ctx.scratch_root, "lock_srv.log"),
+                      env=({"VERIF_SCAN_PHASE_GATE": gate} if hold else None))
             db = vh.new_db()
+            early_opened = False
             try:
-                srv.initialize()
+                srv.initialize(wait_scan=not hold)
+                if hold:
+                    # a document is opened while the start-up scan is still running (held between its phases): what is
+                    # published for it already respects the configuration
+                    t_end = time.time() + 30
+                    while not os.path.exists(os.path.join(gate, "phase2_done.reached")) and time.time() < t_end:
+                        srv.pump(0.05)
+                    if not os.path.exists(os.path.join(gate, "phase2_done.reached")):
+                        raise Inconclusive("phase failpoint not reached")
+                    early_text = doc_versions(random.Random(si), 0)[1][1]
+                    before = srv.seq
+                    srv.did_open(os.path.join(root, "pkg/test_doc.py"), early_text)
+                    got0 = srv.wait_diagnostics(os.path.join(root, "pkg/test_doc.py"), before, timeout=20)
+                    ctx.judged()
+                    if got0 is None:
+                        ctx.violation({"kind": "no-publish-after-open-during-scan", "variant": label}, {}, files=files)
+                    elif any(d.get("code") in disabled for d in got0):
+                        ctx.violation({"kind": "disabled-code-published", "variant": label, "when": "document opened during the start-up scan"},
+                                      {"published": sorted({d.get("code") for d in got0}), "disabled": sorted(disabled)}, files=files | {"doc.py": early_text})
+                    ctx.nontrivial((label, "opened_during_scan", tuple(sorted({d.get("code") for d in (got0 or [])}))))
+                    early_opened = True
+                    open(os.path.join(gate, "phase2_done.go"), "w").close()
+                    srv.wait_log("Workspace scan complete", 60)
                 if not any("scan complete" in l for l in srv.logs):
                     ctx.violation({"kind": "server-did-not-come-up-with-this-configuration", "variant": label},
                                   {"logs": srv.logs[-3:], "stderr": srv.stderr_text()[-600:], "toml": toml}, files=files)
@@ -210,12 +247,17 @@ def run(ctx):
                         ctx.violation({"kind": "valid-exclude-pattern-ignored-next-to-invalid-ones", "variant": label}, {"symbols": sorted(syms)}, files=files)
                     if not {"fa", "fd"} <= syms:
                         ctx.violation({"kind": "invalid-entry-disabled-the-rest", "variant": label}, {"symbols": sorted(syms)}, files=files)
-                opened = set()
+                opened = {"doc"} if early_opened else set()
                 cur, last_valid = {}, {}
                 steps = doc_versions(ctx.rng, steps_n, directed=(si % 2 == 0))
                 hist = []
                 for (tgt, text, op) in steps:
                     p = paths[tgt]
+                    if op == "close":
+                        srv.did_close(p)
+                        opened.discard(tgt)
+                        hist.append((tgt, op))
+                        continue
                     before = srv.seq
                     (srv.did_change if tgt in opened else srv.did_open)(p, text)
                     opened.add(tgt)
